@@ -71,6 +71,7 @@ func main() {
 		"plaintext lengths up to 6 chunks (400 000 bytes); unbounded sizes are not explored",
 		"the plaintext reader is consumed by Read loops with 8 buffer sizes, by io.Copy into a plain Writer (uses a WriteTo of the reader if there is one) and by io.ReadAll",
 		"a result that differs from the baseline under every delivery schedule it was run with is reported once with sched=* (the cause is then the consumption mode / buffer / handed-in bufio, not the schedule)",
+		"malformed armor texts are judged only for independence of delivery schedule and read size, never for whether they should be accepted (C08); no read-ahead bound is applied to them",
 		"delivery schedules are those of mon.Schedules() (never (0,nil) reads, never transient source errors) plus two counted bufio schedules",
 		"ssh-rsa recipients are left out of the encryption sweep: crypto/rsa draws a data-independent random number of tape bytes (randutil.MaybeReadByte)",
 		"hold-back is measured at the destination handed to age.Encrypt; the armor writer's own lag is bounded separately by one 48-byte line",
@@ -106,6 +107,14 @@ func main() {
 	r.Set("max_armor_writer_lag_bytes", m.maxArmorLag.Load())
 	r.Set("max_source_bytes_consumed_beyond_the_chunks_released", m.maxAhead.Load())
 	r.Set("read_ahead_checks_where_the_source_was_longer_than_the_allowance", m.binding.Load())
+	// vacuity guard for the malformed-armor family: it must have been run
+	// under a trickled and a bulk schedule, with small and with large reads
+	for _, k := range []string{"armor.NewReader/trickled/small-read", "armor.NewReader/trickled/large-read",
+		"armor.NewReader/bulk/small-read", "armor.NewReader/bulk/large-read", "age.Decrypt/trickled", "age.Decrypt/bulk"} {
+		if r.Counter("malformed_armor_runs/"+k) == 0 {
+			r.Inconclusive("no malformed-armor text was exercised as %s", k)
+		}
+	}
 	if m.binding.Load() == 0 {
 		r.Inconclusive("no read-ahead check was binding (no file longer than the bound)")
 	}
